@@ -36,6 +36,7 @@ batch list that starts at the batch holding `o` (or the first batch after `o`).
 * `read_run_after_loss` any reachable state, then ANY set of index objects / segment objects lost and a restart at any store
                       offset (orphan rule of `RestoreFromS3`): if the restore succeeds, `Read` on the restored log answers a
                       non-empty prefix of the retained log from the first batch reaching the offset — also inside a hole.
+* `read_run_after_loss_run` … and after any further appends / flushes / gated flushes / reads on the restored log (up to the next restart).
 * `handouts_stable`   returned record sets modelled in a heap of hand-outs (`Model/PLogHandout.lean`): with the fresh-copy read path
                       every slice ever handed out keeps its bytes under every later operation; `shared_buffer_unstable` is the
                       witness for a reused per-partition buffer (seeded change C04-r2-2).
@@ -173,6 +174,27 @@ theorem _root_.KafVerif.C03.read_run_after_loss (iv : Int) (c : Bool) (start : I
   obtain ⟨r1, r2, r3, r4, r5, _⟩ := restore_gapped hi hg losses st last hst hres
   exact KafVerif.C03.read_run_gapped l'.next r1 (by show Chain l'.next (l'.fl ++ l'.buf) l'.next; rw [r2, r3]; simp [Chain]) r4 r5
     (by intro b hb; rw [r2, r3] at hb; simp at hb) o m
+
+/-- **C03 (after object loss, and everything up to the next restart).** As `read_run_after_loss`, followed by ANY sequence `ops2`
+of appends (declared length), flushes, gated flushes, releases, reads and cache drops on the restored log (run `Small`, no further
+restart): in the state reached, `Read` still answers offset-out-of-range iff no batch of the log reaches the offset and otherwise a
+non-empty prefix of the log's bytes from the first batch that reaches it — the gapped invariants `InvG` / `GoodG` are inductive
+(`gapped_step`).  A second loss + restart is outside this theorem (covered by the holes stream). -/
+theorem _root_.KafVerif.C03.read_run_after_loss_run (iv : Int) (c : Bool) (start : Int) (ops : List Op)
+    (hr : RunOK (PLog.new iv c start) ops) (losses : List Loss) (st last : Int) (hst : start ≤ st)
+    (hres : (restoreAt (losses.foldl lose { l := ops.foldl step (PLog.new iv c start) }) st).2 = .ok last)
+    (ops2 : List Op)
+    (hr2 : RunOKG (restoreAt (losses.foldl lose { l := ops.foldl step (PLog.new iv c start) }) st).1.l ops2) (o m : Int) :
+    let l' := ops2.foldl step (restoreAt (losses.foldl lose { l := ops.foldl step (PLog.new iv c start) }) st).1.l
+    (runFrom l'.log o = [] → (read l' o m).2 = .oor) ∧
+    (runFrom l'.log o ≠ [] → ∃ d, (read l' o m).2 = .data d ∧ d ≠ [] ∧ d <+: body (runFrom l'.log o)) := by
+  intro l'
+  obtain ⟨hi, hg, _⟩ := good_reach (PLog.new iv c start) ops (inv_new iv c start) (good_new iv c start) hr
+  obtain ⟨i0, g0⟩ := restore_invG hi hg (cacheOff_reach iv c start ops) losses st last hst hres
+  obtain ⟨⟨m0, h1, h2, _⟩, g1, g2, g3, _⟩ := gapped_reach _ ops2 i0 g0 hr2
+  exact KafVerif.C03.read_run_gapped m0 h1 h2 g1 g2 (fun b hb => by
+    have := (g3 b hb).1.2
+    intro hnil; rw [hnil] at this; simp [hdrMin] at this) o m
 
 /-- a read changes nothing but the cache, and what it caches is the S3 object of a segment -/
 theorem _root_.KafVerif.C03.read_only_caches (l : PLog) (o m : Int) :
